@@ -1298,7 +1298,13 @@ class FileHashStore(HashStore):
                         f"Permanent file found, checking hex digest for pid: {pid}"
                     )
                     self.fhs_logger.debug(debug_msg)
-                    pid_checksum = self.get_hex_digest(pid, self.algorithm)
+                    # Hash the file that is at the permanent address. What the pid currently
+                    # references says nothing about that file: the pid may be bound to other
+                    # content, and the file may be the complete object another call has just stored
+                    with open(abs_file_path, "rb") as existing_obj_stream:
+                        pid_checksum = self._computehash(
+                            existing_obj_stream, self.algorithm
+                        )
                     if pid_checksum == hex_digests.get(self.algorithm):
                         # If the checksums match, return and log warning
                         err_msg = (
